@@ -5,6 +5,7 @@ import (
 	"database/sql"
 	"encoding/json"
 	"fmt"
+	"io"
 	"net"
 	"os"
 	"path/filepath"
@@ -45,6 +46,10 @@ type e2e struct {
 	started      bool
 	idleTold     bool
 	tr           *tracker
+	warcWrites   int
+	killAtWrite  int
+	killTorn     int
+	c04          *oC04
 	jobPath      string
 	summary      map[string]any
 }
@@ -235,6 +240,8 @@ func (r *e2e) writeRecord() {
 	rec.Faults = k.Faults
 	rec.Parked = k.ParkedSummary()
 	rec.Requests = len(r.net.Snapshot())
+	r.summary["point_counts"] = k.PointCount
+	r.summary["warc_writes"] = r.warcWrites
 	rec.Summary = r.summary
 	if r.in.KeepLog {
 		rec.Log = k.Log
@@ -302,6 +309,9 @@ func (r *e2e) fire(c *ctlState) {
 	k.Probe("ctl-" + c.a.Kind)
 	switch c.a.Kind {
 	case "stop":
+		if r.stopFired {
+			return // one stop request per run (a second signal makes Zeno exit, it does not call Stop twice)
+		}
 		r.stopFired = true
 		r.stopFiredAt = k.Now()
 		go func() {
@@ -471,6 +481,17 @@ func RunE2E(t *testing.T, in *RunInput) {
 		warc.SimLookupIP = func(ctx context.Context, host, rt string) (net.IP, error) {
 			return n.Lookup(ctx, host, rt)
 		}
+		r.killTorn = -1
+		if sc.Extra != nil {
+			fmt.Sscan(sc.Extra["kill_write"], &r.killAtWrite)
+			if v, ok := sc.Extra["kill_torn"]; ok {
+				fmt.Sscan(v, &r.killTorn)
+			}
+		}
+		if in.Phase > 0 {
+			r.killAtWrite = 0
+		}
+		warc.SimFileWrapper = func(f *os.File) io.Writer { return &killWriter{r: r, f: f} }
 		n.RegisterProxyScheme()
 		if sc.Cfg.UseHQ {
 			installHQ(r)
@@ -483,6 +504,9 @@ func RunE2E(t *testing.T, in *RunInput) {
 		k.Oracles = append(k.Oracles, oraclesFor(r)...)
 		verifhook.Handler = k.Handle
 		k.SetActor("root")
+		if r.c04 != nil {
+			r.c04.Before(k)
+		}
 		func() {
 			defer func() {
 				if p := recover(); p != nil {
